@@ -151,7 +151,7 @@ Section WithPlan.
       | apply touches_bind; [|intros ?] ].
   Qed.
 
-  Lemma touches_create_md5 : touches (create_md5 pl) [RMd5].
+  Lemma touches_create_md5 src : touches (create_md5 pl src) [RMd5].
   Proof.
     unfold create_md5.
     repeat first
@@ -280,7 +280,7 @@ Section WithPlan2.
   Lemma nz_load : nonzero (load pl). Proof. unfold load. nz2. Qed.
   Lemma nz_backup_copy o : nonzero (backup_copy pl o). Proof. unfold backup_copy. nz2. Qed.
   Lemma nz_content_matches a b : nonzero (content_matches pl a b). Proof. unfold content_matches. nz2. Qed.
-  Lemma nz_create_md5 : nonzero (create_md5 pl). Proof. unfold create_md5. nz2. Qed.
+  Lemma nz_create_md5 src : nonzero (create_md5 pl src). Proof. unfold create_md5. nz2. Qed.
 End WithPlan2.
 
 (** ** outcome lemmas for the primitives (what an [Ok] result tells) *)
@@ -669,7 +669,23 @@ Section AllOrNothing.
             eapply (stable_I1 [RTmp]); [| |intros r Hr; eapply touches_ok; eauto using touches_unlink|exact HI];
               cbn; intuition discriminate.
         - intros _. apply spec_exit; [discriminate|apply I1_Safe]. }
-    (* 5. compare / rename *)
+    (* 5. md5 file (before the rename) *)
+    eapply spec_bind with (Q := fun _ d => I1 d /\ d RTmp = Closed (Data f)).
+    { destruct (negb (no_backup md)).
+      - eapply spec_block with (rs := [RMd5]).
+        + apply touches_create_md5. + apply nz_create_md5.
+        + apply stable_Safe; cbn; intuition discriminate.
+        + intros d [H _]. apply I1_Safe, H.
+        + intros s u s1 H [HI Ht].
+          assert (Hd : forall r, r <> RMd5 -> disk s1 r = disk s r).
+          { intros r Hr. eapply touches_ok; eauto using touches_create_md5. cbn; intuition. }
+          split.
+          * eapply (stable_I1 [RMd5]); [| |intros r Hr; apply Hd; intros ->; apply Hr; cbn; tauto|exact HI];
+              cbn; intuition discriminate.
+          * rewrite Hd by discriminate. auto.
+      - apply spec_ret. intros d [HI Ht]. split; auto. }
+    intros _.
+    (* 6. compare / rename *)
     eapply spec_bind with (Q := fun _ => Done).
     { eapply spec_bind with
           (Q := fun same d => I1 d /\ d RTmp = Closed (Data f) /\ (same = true -> f = orig)).
@@ -703,18 +719,6 @@ Section AllOrNothing.
           * intros a d H. exact H.
           * auto.
           * intros okr. destruct okr; [apply spec_ret; auto|apply spec_exit; [discriminate|apply I1_Safe]]. }
-    intros _.
-    (* 6. md5 file, mtime *)
-    eapply spec_bind with (Q := fun _ => Done).
-    { destruct (negb (no_backup md)).
-      - eapply spec_block with (rs := [RMd5]).
-        + apply touches_create_md5. + apply nz_create_md5.
-        + apply stable_Safe; cbn; intuition discriminate.
-        + intros d H. right. exact H.
-        + intros s u s1 H HD.
-          eapply (stable_Done [RMd5]); [| |intros r Hr; eapply touches_ok; eauto using touches_create_md5|exact HD];
-            cbn; intuition discriminate.
-      - apply spec_ret. auto. }
     intros _.
     eapply spec_bind with (Q := fun _ => Done).
     { destruct (keep_mtime md).
